@@ -322,6 +322,23 @@ def c08_10(ctx):
                 out.append(ctx.bad(spec, "; ".join(probs), v, mod, key="child-fields"))
             else:
                 out.append(ctx.ok(spec, "depth+1, parent fingerprint, child number, chain code I[32:], key from I[:32]", v, mod, key="child-fields"))
+            # network and SLIP132 version bytes are inherited: every such constructor parameter receives the parent's value
+            cname = call_name(v)
+            init = mod.functions.get("%s.__init__" % cname)
+            if init is None:
+                out.append(ctx.err(spec, "constructor %s.__init__ not found" % cname, v, mod))
+                continue
+            inherit = [p for p in param_names(init)[1:] if p in ("network", "priv_version", "pub_version")]
+            lost = []
+            for p in inherit:
+                got = ex(p)
+                if got is None or not (got.startswith("self.") and got.endswith("." + p)):
+                    lost.append("%s=%s" % (p, got))
+            if lost:
+                out.append(ctx.bad(spec, "the child does not inherit %s from its parent (constructor defaults apply): a zpub/vpub key derives children that serialise "
+                                         "as xpub/tpub, so priv.child(i).xpub() != priv.pub.child(i).xpub()" % ", ".join(lost), v, mod, key="child-inherits"))
+            else:
+                out.append(ctx.ok(spec, "network and version bytes (%s) are inherited from the parent" % ", ".join(inherit), v, mod, key="child-inherits"))
     return out
 
 
